@@ -17,7 +17,8 @@ chk("C04", "gbv/streamfsm+lifecycle",
     "Decides the inductive position invariant structurally, for every exit and every path rather than sampled runs: every one of the parser's "
     "exits returns a fresh load of the position cell; the cell is advanced in the commit closure only on the handler-accepted edge; only "
     "initialisation, commit and the rotate arm write it; Stream writes the parser's result back on every path and nothing else stores the resume "
-    "position; the next attempt starts there. It does not decide what the master serves between attempts nor run any history.",
+    "position; the next attempt starts there; every accepted event reaches the dispatch (no way round the loop skips the checksum stripping except for the format description, "
+    "before a format is known, or for a kind without an arm), so no rotation or commit is lost to the cell. It does not decide what the master serves between attempts nor run any history.",
     "sync/atomic.Value semantics; handler failures are signalled by the returned error.",
     "DESIGN.md 5/C04")
 
@@ -34,8 +35,9 @@ chk("C03", "gbv/streamfsm",
     "field-wise value provenance (store-to-load forwarding) in the commit closure, rotate arm and offset conversion chains",
     "Decides how the labels are computed and that they chain: now = cell at closure entry, next = {same file, NextPosition() of the commit event, no arithmetic}, "
     "constructor parameter order, cell == next on the accepted exit, commit always receives the stripped current event, rotate stores Rotate()'s results, and every "
-    "conversion on the offset chain is one of uint32->int64 / uint64->int64 / int64->uint32. It does not decide what a master serves when resumed at a label.",
-    "with C02-R3/C04-R3 (only commit and rotate write the cell).",
+    "conversion on the offset chain is one of uint32->int64 / uint64->int64 / int64->uint32. The check includes C04-R2/R3/R6 (the cell moves only at an accepted commit and at a "
+    "rotation; every accepted event is dispatched), which the chaining needs. It does not decide what a master serves when resumed at a label.",
+    "none beyond the common base.",
     "DESIGN.md 5/C03")
 
 chk("C16", "gbv/streamfsm+wirefmt",
@@ -51,7 +53,7 @@ chk("C17", "gbv/wirefmt+streamfsm",
     "SCCP over IsValid's comparison regions (exhaustive for its constants); constant-bound check of header accessors; dominance of every event method call by the gate",
     "Decides: IsValid's verdict equals (len>=19 && lengthField==len) on every order region its comparisons can distinguish and touches the buffer only when len>=19; "
     "all index/slice bounds of header accessors are constants within the guaranteed header (also after checksum stripping); every method invoked on a received event in the "
-    "parser is dominated by the accepting edge; the rejecting edge returns a non-nil error and the position cell with no state effect. Body parsers on gate-accepted but "
+    "parser is dominated by the accepting edge; the rejecting edge returns a non-nil error and a fresh load of the position cell with no state effect. Body parsers on gate-accepted but "
     "malformed bodies are outside the statement and not decided.",
     "buffers shorter than 2^31 bytes.",
     "DESIGN.md 5/C17")
@@ -59,7 +61,7 @@ chk("C17", "gbv/wirefmt+streamfsm",
 chk("C05", "gbv/lifecycle",
     "goroutine inventory, blocking-operation classification, a three-state publish/close automaton run as a set-valued dataflow with callee transfer functions, dominance (release on every exit), context provenance, who-writes-what for shared cells; VTA reachability in thorough",
     "Decides the structure that makes termination and cleanup hold under every timing: one goroutine; the handler unreachable from it; every blocking channel operation of the reader "
-    "escapable; every reader exit publishes then closes; connection close deferred on every exit after construction; the reader's context derived in Stream with a deferred cancel; Error()'s "
+    "escapable; every reader exit publishes then closes; connection close deferred on every exit after construction and the constructor hands the connection out only with a nil error (closing it otherwise); the reader's context derived in Stream with a deferred cancel; Error()'s "
     "receive nil-guarded and its channel always that of a started reader; shared cells and fields written only before the go statement; the parser's only wait is a select with ctx.Done(). "
     "It does not decide wall-clock bounds, stalls inside driver handshake calls, or data races inside the driver.",
     "driver facts listed in DESIGN section 2 (only Close unblocks ReadPacket); sync.Once / context / buffered channel semantics; handler and mapper return.",
@@ -86,14 +88,16 @@ chk("C08", "gbv/ownership",
     "may-alias root analysis (H-alias) with explicit standard-library model and in-package summaries; escape check of the transport buffer; allocation-site/loop check of delivered containers",
     "Decides the aliasing structure: the transport's reused buffer flows only into len / element reads / the source side of copy and append / HandleErrorPacket and each event is built on a "
     "per-packet allocation; every success return of CellBytes may alias only the event's own buffer or memory allocated in the call (never package-level storage, unknown producers fail closed); "
-    "delivered containers are fresh allocations produced in the loop iteration that appends them. It does not decide what a handler does through cap() of a delivered slice.",
+    "delivered containers are fresh allocations produced in the loop iteration that appends them; no reference-typed field or element of a delivered object is set to memory read out of a "
+    "delivered object (before and after images never share a value's bytes); the buffer handed to the handler is replaced, not re-sliced (C02-R4, included). It does not decide what a handler does through cap() of a delivered slice.",
     "the alias model of bytes.Buffer/append/strconv/copy in ownership.go; driver returns a window of a reused buffer; strings immutable.",
     "DESIGN.md 5/C08")
 
 chk("C18", "gbv/ownership",
     "taint fixpoint over SSA for receiver-derived memory + write-instruction check with in-package callee summaries",
     "Decides only the immutability clause and two structural preconditions of canonical form: no method of Mysql56GTIDSet (or in-package callee) writes storage reachable from its receiver; AddGTID's "
-    "result map and the interval lists stored into it are allocated in the method; the parser sorts interval lists before storing them and SIDs() sorts its result. Set-algebra agreement "
+    "result map and the interval lists stored into it are allocated in the method; the parser sorts interval lists before storing them and SIDs() sorts its result; the comparators used for sorting "
+    "never decide by the sign of a difference that can wrap. Set-algebra agreement "
     "(Contains/Equal/merge correctness) is a statement about values and is not decided.",
     "list of standard-library functions that write through arguments (ownership.go); other stdlib callees do not.",
     "DESIGN.md 5/C18")
@@ -121,7 +125,7 @@ chk("C10", "gbv/cellcodec",
     "H-sccp specialisation per type + canonical value terms (H-term) compared with the documented decoding; operand provenance at the decoder call sites",
     "Decides API-usage and dependence facts without which the text cannot be exact: type, metadata, signedness, name and type are taken at one column ordinal; for each integer width the returns keyed "
     "by the unsigned flag are base-10 text of the little-endian value / of its two's-complement reinterpretation at exactly that width (INT24 sign bit and extension); FLOAT/DOUBLE use AppendFloat('f', -1, 32|64) "
-    "on the little-endian IEEE bits; YEAR, ENUM (also as CHAR real type), BIT and SET shapes. The numeric results themselves (strconv, math) are trusted, not decided.",
+    "on the little-endian IEEE bits; YEAR, ENUM (also as CHAR real type), BIT and SET shapes; the per-type metadata layout of these types (C15-R5, included). The numeric results themselves (strconv, math) are trusted, not decided.",
     "canonical terms are compared syntactically after normalisation; an algebraically different but equivalent decoder needs a table update.",
     "DESIGN.md 5/C10")
 
@@ -130,14 +134,14 @@ chk("C11", "gbv/cellcodec",
     "Decides necessary conditions for every valid (p,s): an integer digit is definitely written before the decimal point and before every success return (zero never decodes to an empty or sign-only value); no "
     "verb pads with spaces; the cursor of each 9-digit-group loop advances by 4 on every way round; after the "
     "'.' exactly the verbs %09d (s/9 times) and %0Nd (N = s mod 9) are reachable, fed by big-endian reads of the tabulated widths, and integer groups use only %09d/%d/strconv; dig2bytes is constant and equals "
-    "MySQL's table. The digit arithmetic and negative inversion are not decided.",
+    "MySQL's table; the DECIMAL metadata layout (C15-R5, included). The digit arithmetic and negative inversion are not decided.",
     "fmt verb semantics; strconv.AppendUint yields at least one digit.",
     "DESIGN.md 5/C11")
 
 chk("C12", "gbv/cellcodec",
     "H-sccp per (type, fsp) + reachable-format and argument-term checks; canonical value terms of the fixed layouts compared with the documented packings",
     "Decides: per fsp the only reachable fraction format prints exactly fsp digits of the big-endian fraction bytes (divided by 10 for odd fsp - for TIME2 as the last step, after the borrow for negative values); TIMESTAMP text comes from time.Unix in the local zone with "
-    "the fields in order and the documented zero literal; DATE/NEWDATE/DATETIME/DATETIME2/TIMESTAMP/TIMESTAMP2 extract their fields from the documented bit and decimal packings. TIME/TIME2 sign and hour "
+    "the fields in order and the documented zero literal, and no returned text lives in package-level storage (C08-R2, included); the fsp metadata layout (C15-R5, included); DATE/NEWDATE/DATETIME/DATETIME2/TIMESTAMP/TIMESTAMP2 extract their fields from the documented bit and decimal packings. TIME/TIME2 sign and hour "
     "arithmetic and out-of-range rendering are not decided (a known mis-rendering of negative pre-5.6.4 TIME is outside static reach, see DESIGN).",
     "canonical terms are compared syntactically after normalisation.",
     "DESIGN.md 5/C12")
@@ -145,7 +149,9 @@ chk("C12", "gbv/cellcodec",
 chk("C13", "gbv/cellcodec",
     "H-sccp over the string-type metadata domains + canonical slice terms; path-class effects in the streamer's column loops",
     "Decides: for VARCHAR/VAR_STRING/CHAR/blobs/GEOMETRY the value is the direct sub-slice after a prefix whose width follows the declared maximum (thorough: all 65536 metadata values, exhaustive); in the "
-    "streamer absent/NULL/value are delivered as {IsEmpty}, {nil data}, {decoder result}, each appended exactly once, and IsEmpty is set nowhere else. Byte equality with the master follows given a "
+    "streamer absent/NULL/value are delivered as {IsEmpty}, {nil data}, {decoder result}, each appended exactly once, and IsEmpty is set nowhere else; the decoder can fail for a string cell only "
+    "when the cell does not fit the buffer (never on content, never on an empty value at the end of the image); the column loops leave towards success only when the ordinal reached the column "
+    "count (trailing absent columns are delivered); ordinal/NULL-index bookkeeping of those loops (C09-R3) and the string types' metadata layout (C15-R5) are included. Byte equality with the master follows given a "
     "well-formed image and is not decided on its own.",
     "a sub-slice of a non-nil image is non-nil even when empty.",
     "DESIGN.md 5/C13")
@@ -161,19 +167,21 @@ chk("C15", "gbv/streamfsm+cellcodec+wirefmt",
 
 chk("C01", "gbv/streamfsm",
     "operand provenance per dispatch arm, constructor parameter mapping, loop-shape check of the row conversions, framing terms",
-    "End-to-end equality over all binlogs is a runtime quantity and is NOT decided; its composition is covered clause-wise by C02, C03, C09, C13, C15 and C16. C01's own check decides the routing facts "
+    "End-to-end equality over all binlogs is a runtime quantity and is NOT decided. The check is the conjunction of the structural clauses of the statement: it runs, besides its own rules, all rules of "
+    "C02 (grouping), C09 (row splitting), C10-C14 (value text per column type), C15 (table maps, metadata), C16 (checksum stripping, header and body layouts) and C04-R6, C08-R2/R4 (quick tier), "
+    "reported under their own rule ids. C01's own rules decide the routing facts "
     "whose violation changes what the handler sees for every input: rows arms build Insert / Update / Delete events from the rows decoded in the same iteration with the right images in the right lists "
     "(values<-Data image, identifies<-Identify image), one image per row in order, table = cached mapper table, timestamps = the dispatched event's; query arms buffer {category, decoded query, timestamp}; "
     "the event is packet[1:] in a len-1 buffer and the packet kind is packet[0].",
-    "the clauses decided by the other checks named above.",
-    "DESIGN.md 5/C01")
+    "the trusted bases of the included checks.",
+    "DESIGN.md 5/C01 and 9.4")
 
 chk("C14", "gbv/dispatch+cellcodec",
     "H-sccp over all 256 type bytes x size classes with executable-call extraction; canonical terms of the scalar printers and readers",
     "Decides dispatch completeness and the layout rules of MySQL's binary JSON that do not depend on the document: exactly the declared type codes are handled (containers with the right size class), the "
     "opaque sub-dispatch handles exactly DATE/TIME/DATETIME/NEWDECIMAL on the size-prefixed payload, a value entry is inlined iff its payload fits the entry (2 bytes, 4 in the large format) with the same "
     "printer and width, every offset/size read uses the container's size class except the key length, entry stride 3/5, the offset reader composes 2/4 little-endian bytes, scalar printers render the "
-    "documented widths/signedness. Rendering of arbitrary documents (nesting, order, offsets, escaping, opaque arithmetic) is not decided.",
+    "documented widths/signedness; the JSON column's metadata layout (C15-R5, included). Rendering of arbitrary documents (nesting, order, offsets, escaping, opaque arithmetic) is not decided.",
     "MySQL json_binary.cc layout constants encoded in rules_c14.go.",
     "DESIGN.md 5/C14")
 
